@@ -58,12 +58,16 @@ Openers == OuterKinds \cup {"with_begin", "with_nested", "s_begin"}
 CommitOps == {"commit", "s_commit"}
 NoFrames == << [n |-> 0, r |-> {}] >>
 
+\* pool at the start: "idle" one clean connection pooled, "idle2" a second untouched one next to it, "empty" initialised engine with
+\* an empty pool, "cold" engine that never connected
+PoolIds(pool) == CASE pool = "idle" -> {1} [] pool = "idle2" -> {1, 2} [] OTHER -> {}
 InitSt(pool, prog, free) ==
   [prog |-> prog, free |-> free, pc |-> 0, op |-> "", stack |-> <<>>, phase |-> "run", exc |-> FALSE, ncancel |-> 0,
    fl |-> "", flid |-> 0, shield |-> <<>>, out |-> 0, rec |-> FALSE, live |-> FALSE, hit |-> FALSE, resetting |-> FALSE,
    txn |-> FALSE, stxn |-> FALSE, sconn |-> FALSE, frames |-> NoFrames, committed |-> {}, nrow |-> 0, spseq |-> 0,
-   returns |-> 0, everout |-> FALSE, idle |-> IF pool = "idle" THEN {1} ELSE {}, dead |-> 0,
-   open |-> IF pool = "idle" THEN {1} ELSE {}, nextid |-> IF pool = "cold" THEN 1 ELSE 2, creating |-> 0, fresh |-> 0,
+   returns |-> 0, everout |-> FALSE, idle |-> PoolIds(pool), dead |-> 0,
+   open |-> PoolIds(pool), nextid |-> CASE pool = "cold" -> 1 [] pool = "idle2" -> 3 [] OTHER -> 2,
+   creating |-> 0, fresh |-> 0,
    abandoned |-> {}, todo |-> <<>>, closestarted |-> FALSE, explicit |-> FALSE, kind |-> "none", closed |-> FALSE,
    aborting |-> FALSE, strict |-> pool # "cold", slept |-> FALSE,
    \* ghosts for the property
@@ -251,6 +255,7 @@ Settle(s, e) ==
   IN R(w, [s EXCEPT !.phase = "settled", !.lost = s.rec])
 FreshEv(s, e) ==
   R(Fail("Fresh.engine_usable", e.o.ok /\ e.o.init /\ s.phase = "settled") \cup Fail("Fresh.no_leftover_transaction", ~e.o.intx)
+    \cup Fail("Fresh.reuses_a_pooled_connection_as_it_is", s.idle = {} \/ e.o.id \in s.idle)
     \cup Fail("Fresh.sees_committed_rows", Seq2Set(e.o.rows) = s.committed), s)
 EndEv(s, e) ==
   R(Fail("End.clean", e.o.co = 0 /\ ~e.o.locked /\ Seq2Set(e.o.rows) = s.committed) \cup Fail("End.after_settle", s.phase = "settled"),
